@@ -1150,10 +1150,14 @@ func (fc *FuncCtx) callSiteClauses(st *State, env *Env, cshort string, ord int, 
 			// names, caller variables) over a snapshot of the state at the call
 			we := *env
 			we.st = st.clone()
-			v.addObligation(&Obligation{Name: fmt.Sprintf("%s#call%d[%s].requires.%s", fc.short, ord, cshort, label), Kind: "call", Func: fc.key,
+			oname := fmt.Sprintf("%s#call%d[%s].requires.%s", fc.short, ord, cshort, label)
+			v.addObligation(&Obligation{Name: oname, Kind: "call", Func: fc.key,
 				Pos: v.fset.Position(ins.Pos()).String(), Assume: pc, Goal: t, Expect: "unsat", Src: cl.Src, wenv: &we})
-			// a call-site clause is also a cut: once proved at this point it may be used afterwards
-			st.assume(v.c, t)
+			// a call-site clause is also a cut: once proved at this point it may be used afterwards - unless it is a recorded
+			// known finding (it does not hold; assuming it would let everything that follows from it prove vacuously)
+			if _, isKnown := v.known[oname]; !isKnown {
+				st.assume(v.c, t)
+			}
 		}
 	}
 }
